@@ -310,6 +310,17 @@ func enumerate(base string, scenario string, size int, seed int64, srcfile bool,
 			}
 			jobs = append(jobs, job{j, fmt.Sprintf("%s:error=%s:when=%d", s.Name, en, s.Ordinal), "error-" + en})
 		}
+		// one cause, lasting: from this operation on every call of the same kind fails (the process
+		// has run out of descriptors / of disk space) - a single fault in the sense of the statement,
+		// but the code meets it again on its error path
+		if !killsOnly {
+			switch s.Name {
+			case "openat":
+				jobs = append(jobs, job{j, fmt.Sprintf("%s:error=EMFILE:when=%d+", s.Name, s.Ordinal), "persistent-EMFILE"})
+			case "write":
+				jobs = append(jobs, job{j, fmt.Sprintf("%s:error=ENOSPC:when=%d+", s.Name, s.Ordinal), "persistent-ENOSPC"})
+			}
+		}
 	}
 	vlib.Parallel(len(jobs), W, func(k int) {
 		jb := jobs[k]
